@@ -60,16 +60,6 @@ pub open spec fn v1_bin_err_incomplete(e: V1BinError) -> bool {
 // ---- field-level predicates -------------------------------------------------------------
 pub open spec fn is_sep(b: u8) -> bool { b == 32u8 || b == 13u8 }
 pub open spec fn no_sep(s: Seq<u8>) -> bool { forall|i: int| 0 <= i < s.len() ==> !is_sep(#[trigger] s[i]) }
-pub open spec fn is_digit(b: u8) -> bool { 48u8 <= b <= 57u8 }
-pub open spec fn all_digits(s: Seq<u8>) -> bool { forall|i: int| 0 <= i < s.len() ==> is_digit(#[trigger] s[i]) }
-
-/// value of a decimal digit string
-pub open spec fn dec_value(s: Seq<u8>) -> nat
-    decreases s.len()
-{
-    if s.len() == 0 { 0 } else { dec_value(s.subrange(0, s.len() - 1)) * 10 + (s[s.len() - 1] - 48u8) as nat }
-}
-
 /// C01: "plain decimal 0-65535 with no sign and no leading zero"
 pub open spec fn port_ok(s: Seq<u8>) -> bool {
     1 <= s.len() <= 5 && all_digits(s) && (s.len() == 1 || s[0] != 48u8) && dec_value(s) <= 65535
